@@ -39,14 +39,20 @@ func c20Fields() []c20Field {
 	}
 	return []c20Field{
 		in("Version", func(c *config.Config) *int { return &c.Version }),
-		{Name: "WALDir", Values: []any{"", "w"}, Valid: func(c *config.Config) bool { return c.WALDir != "" }, Set: func(c *config.Config, v any) {
+		{Name: "WALDir", Values: []any{"", "w", "/"}, Valid: func(c *config.Config) bool { return c.WALDir != "" }, Set: func(c *config.Config, v any) {
 			if v.(string) == "" {
 				c.WALDir = ""
 			}
+			if v.(string) == "/" {
+				c.WALDir += "/" // a valid directory string that is not in canonical form
+			}
 		}},
-		{Name: "SSTDir", Values: []any{"", "s"}, Valid: func(c *config.Config) bool { return c.SSTDir != "" }, Set: func(c *config.Config, v any) {
+		{Name: "SSTDir", Values: []any{"", "s", "/"}, Valid: func(c *config.Config) bool { return c.SSTDir != "" }, Set: func(c *config.Config, v any) {
 			if v.(string) == "" {
 				c.SSTDir = ""
+			}
+			if v.(string) == "/" {
+				c.SSTDir = filepath.Dir(c.SSTDir) + "/./" + filepath.Base(c.SSTDir)
 			}
 		}},
 		i64("MemTableSize", func(c *config.Config) *int64 { return &c.MemTableSize }),
@@ -136,7 +142,7 @@ func c20EvalCfg(root string, c *config.Config, fields []c20Field, desc string) s
 		if _, err := os.Stat(dir); err == nil {
 			return fmt.Sprintf("rejected-config-wrote\n%s: SaveManifest rejected the configuration but created %s", desc, dir)
 		}
-		return ""
+		return c20EvalManifestObject(root, c, want, desc)
 	}
 	if serr != nil {
 		return fmt.Sprintf("valid-config-rejected\n%s: SaveManifest failed with %v", desc, serr)
@@ -149,6 +155,54 @@ func c20EvalCfg(root string, c *config.Config, fields []c20Field, desc string) s
 		a, _ := json.Marshal(c)
 		b, _ := json.Marshal(got)
 		return fmt.Sprintf("round-trip-differs\n%s: stored %s loaded %s", desc, a, b)
+	}
+	return c20EvalManifestObject(root, c, want, desc)
+}
+
+// c20EvalManifestObject: the same rule through the package's manifest object (NewManifest / UpdateConfig / Save /
+// LoadManifest): an update to a valid configuration is stored and loaded back unchanged, an update violating a
+// constraint is refused and the stored configuration stays the one the manifest was created with.
+func c20EvalManifestObject(root string, c *config.Config, want bool, desc string) string {
+	dir := filepath.Join(root, "mf")
+	os.RemoveAll(dir)
+	base := config.NewDefaultConfig(dir)
+	m, err := config.NewManifest(dir, base)
+	if err != nil {
+		return fmt.Sprintf("valid-config-rejected\nNewManifest with the default configuration failed: %v", err)
+	}
+	if err := m.Save(); err != nil {
+		return fmt.Sprintf("valid-config-rejected\nManifest.Save of the default configuration failed: %v", err)
+	}
+	raw, _ := json.Marshal(c)
+	uerr := m.UpdateConfig(func(x *config.Config) { json.Unmarshal(raw, x) })
+	serr := m.Save()
+	l, lerr := config.LoadManifest(dir)
+	if !want {
+		if uerr == nil {
+			return fmt.Sprintf("invalid-config-saved\n%s: Manifest.UpdateConfig accepted a configuration violating a documented constraint (Save then returned %v)", desc, serr)
+		}
+		if lerr != nil {
+			return fmt.Sprintf("stored-config-unloadable\n%s: after a refused update LoadManifest failed with %v", desc, lerr)
+		}
+		if !cfgEqual(l.GetConfig(), base) {
+			b, _ := json.Marshal(l.GetConfig())
+			return fmt.Sprintf("rejected-config-wrote\n%s: after a refused update the stored configuration is %s, not the one the manifest was created with", desc, b)
+		}
+		if _, nerr := config.NewManifest(filepath.Join(root, "mf2"), c); nerr == nil {
+			return fmt.Sprintf("invalid-config-saved\n%s: NewManifest accepted a configuration violating a documented constraint", desc)
+		}
+		return ""
+	}
+	if uerr != nil || serr != nil {
+		return fmt.Sprintf("valid-config-rejected\n%s: Manifest.UpdateConfig=%v Save=%v", desc, uerr, serr)
+	}
+	if lerr != nil {
+		return fmt.Sprintf("stored-config-unloadable\n%s: LoadManifest failed with %v", desc, lerr)
+	}
+	if !cfgEqual(l.GetConfig(), c) {
+		a, _ := json.Marshal(c)
+		b, _ := json.Marshal(l.GetConfig())
+		return fmt.Sprintf("round-trip-differs\n%s: Manifest.UpdateConfig+Save stored %s, LoadManifest returns %s", desc, a, b)
 	}
 	return ""
 }
@@ -593,7 +647,7 @@ func init() {
 	fw.Register(&fw.Check{
 		ID:    "C20",
 		Level: "exploration",
-		Rule: "constraint table of 15 documented clauses written independently of Validate; for 3 valid base configurations: every single-field deviation over {bound-1, bound, bound+1, typical}, every pair of fields over all their values, and the full product warning x critical threshold in [-1,101]^2: Validate accepts <=> table; a rejected configuration makes SaveManifest fail without a single file-system call (recorded through the os shim); an accepted one is stored and loaded back equal in every field, also when the directory still holds the temporary file of an earlier interrupted save (longer / shorter / equally long junk, another configuration). Thorough tier: every triple of the 15 constrained fields over all their values, and every single / pair assignment of extreme values (int64 and int32 limits, 2^53+1, unknown sync modes, long and oddly-charactered directory names) to the fields without a documented constraint: valid, stored, loaded back equal. Open: a database created with an all-non-default configuration runs with it (also after reopen; custom directories used); every truncation of the stored manifest, every constrained setting removed or null, an empty object / null / array, every single-byte damage x 5 value classes and every crash cut / torn write of a manifest update over existing data: opening fails with an error or runs with the stored (old or new) configuration - never with defaults, and never when the stored object lacks a setting that has a documented constraint. Non-trivial = configurations violating a clause / damaged manifests",
+		Rule: "constraint table of 15 documented clauses written independently of Validate; for 3 valid base configurations: every single-field deviation over {bound-1, bound, bound+1, typical}, every pair of fields over all their values, and the full product warning x critical threshold in [-1,101]^2: Validate accepts <=> table; a rejected configuration makes SaveManifest fail without a single file-system call (recorded through the os shim); an accepted one is stored and loaded back equal in every field (directory strings that are valid but not canonical - trailing slash, ./ component - included); the same two rules through the package's manifest object (NewManifest / UpdateConfig / Save / LoadManifest: a refused update leaves the stored configuration the one the manifest was created with), also when the directory still holds the temporary file of an earlier interrupted save (longer / shorter / equally long junk, another configuration). Thorough tier: every triple of the 15 constrained fields over all their values, and every single / pair assignment of extreme values (int64 and int32 limits, 2^53+1, unknown sync modes, long and oddly-charactered directory names) to the fields without a documented constraint: valid, stored, loaded back equal. Open: a database created with an all-non-default configuration runs with it (also after reopen; custom directories used); every truncation of the stored manifest, every constrained setting removed or null, an empty object / null / array, every single-byte damage x 5 value classes and every crash cut / torn write of a manifest update over existing data: opening fails with an error or runs with the stored (old or new) configuration - never with defaults, and never when the stored object lacks a setting that has a documented constraint. Non-trivial = configurations violating a clause / damaged manifests",
 		Assumptions: []string{"a missing manifest is 'not found' (a new database), not 'invalid'", "a damaged byte that yields another valid configuration cannot be detected without a checksum and is not flagged; falling back to defaults is", "while an engine opens on a damaged manifest only the database directory is writable (os shim): directory paths damaged into places outside it fail with a permission error instead of littering the machine"},
 		Units: func(tier string) []string {
 			us := []string{"validate", "stale-temp", "open/missing", "open/trunc", "open/byte/0/4", "open/byte/1/4", "open/byte/2/4", "open/byte/3/4", "open/crash"}
